@@ -420,15 +420,24 @@ CONFIG['C12']['floors']['quick']['classes']['cell:axis=(0, 1):kwargs=2d'] = 1
 # classes added in response to round-14 seeded changes
 for _p, _k, _v in (('C01', 'filter_options_with_defaults_written_out_as_None', 5), ('C02', 'long_recordings', 8),
                    ('C06', 'table_columns_in_another_order', 100), ('C12', 'per_slice_list_with_entries_that_omit_settings', 2),
-                   ('C17', 'long_recording:in_quantifier', 1), ('C18', 'flatten:2d_own_column_name', 3)):
+                   ('C17', 'long_recording:in_quantifier', 1), ('C18', 'flatten:2d_own_column_name', 3),
+                   # round 15
+                   ('C03', 'sig_view=int_buffer', 10000), ('C03', 'sig_view=buffer', 10000),
+                   ('C12', 'slices_with_rows_shorter_than_one_cycle', 4), ('C12', 'entries_for_epochs_without_cycles', 5),
+                   ('C18', 'limit_signal_window_after_the_last_sample', 300), ('C18', 'flatten_one_table_object_at_two_positions', 8),
+                   ('C18', 'flatten_table_that_already_has_the_label_column', 10), ('C20', 'cyclepoints_of_a_table_with_dropped_rows', 30)):
     CONFIG[_p]['floors']['quick']['classes'][_k] = _v
 for _p, _t in (('C01', 'filter options with their documented default written out as None'),
                ('C02', 'long recordings (70 000 - 210 000 samples) of rhythms that are fast for their sampling rate'),
                ('C06', 'tables whose feature columns stand in another order (reversed / sorted / shuffled, further columns in between)'),
-               ('C12', 'per-slice lists whose entries leave settings out (defaults apply to that slice)'),
-               ('C17', 'one recording of more than 2**24 samples with its cyclepoints near the end'),
-               ('C18', 'custom column names with 1-D and 2-D lists'),
-               ('C19', 'unknown progress values also with axis=None')):
+               ('C12', 'per-slice lists whose entries leave settings out (defaults apply to that slice); slices whose rows are shorter than one cycle (entries for epochs without cycles keep their place)'),
+               ('C17', 'one recording of more than 2**24 samples with its cyclepoints near the end, preceded by one half cycle of more than 10**5 samples'),
+               ('C18', 'custom column names with 1-D and 2-D lists; windows that begin after the last sample; one table object at two positions of the list; tables that already carry the label column'),
+               ('C19', 'unknown progress values also with axis=None; unknown burst_method in per-epoch entries; invalid settings on the second use '
+                       'of a fitted object / of option dicts the caller keeps'),
+               ('C03', 'signals also passed through ONE buffer object per length and sample type that is refilled in place between calls '
+                       '(float and integer buffers)'),
+               ('C20', 'cyclepoint plots of tables with dropped rows (bursting cycles only / every other cycle)')):
     CONFIG[_p]['rule'] = CONFIG[_p]['rule'].rstrip() + '; ' + _t
 
 # thorough tiers run at least 25x the quick workload: their floors are ten times the (calibrated) quick floors
